@@ -13,14 +13,16 @@ theorem C08_iterate_wf :
 
 /-- **C08 (no two streams share a label set)** -/
 theorem C08_streams_distinct :
-    ∀ (es : List Entry), List.Pairwise (fun s t => sameLabels s.labels t.labels = false) (group es) :=
+    ∀ (es : List Entry),
+      List.Pairwise (fun (s t : LogQL.Stream) => sameLabels s.labels t.labels = false) (group es) :=
   @streams_distinct
 
 /-- **C08 (every entry sits in the stream carrying exactly its labels)** -/
 theorem C08_entry_in_stream :
     ∀ (es : List Entry),
       (∀ (e : Entry), e ∈ es → WF e.labels) →
-        ∀ (e : Entry), e ∈ es → ∃ s, s ∈ group es ∧ sameLabels s.labels e.labels = true ∧ (e.ts, e.line) ∈ s.entries :=
+        ∀ (e : Entry),
+          e ∈ es → ∃ (s : LogQL.Stream), s ∈ group es ∧ sameLabels s.labels e.labels = true ∧ (e.ts, e.line) ∈ s.entries :=
   @entry_in_stream
 
 /-- **C08 (a stream holds exactly the entries with its label set)**, as a multiset -/
@@ -29,7 +31,9 @@ theorem C08_stream_members :
       (∀ (e : Entry), e ∈ es → WF e.labels) →
         ∀ (s : LogQL.Stream),
           s ∈ group es →
-            s.entries.Perm (List.map (fun e => (e.ts, e.line)) (List.filter (fun e => sameLabels s.labels e.labels) es)) :=
+            s.entries.Perm
+              (List.map (fun (e : Entry) => (e.ts, e.line))
+                (List.filter (fun (e : Entry) => sameLabels s.labels e.labels) es)) :=
   @stream_members
 
 /-- …and in exactly the stable time order of those entries -/
@@ -39,12 +43,14 @@ theorem C08_stream_members_sorted :
         ∀ (s : LogQL.Stream),
           s ∈ group es →
             s.entries =
-              sortByTs (List.map (fun e => (e.ts, e.line)) (List.filter (fun e => sameLabels s.labels e.labels) es)) :=
+              sortByTs
+                (List.map (fun (e : Entry) => (e.ts, e.line))
+                  (List.filter (fun (e : Entry) => sameLabels s.labels e.labels) es)) :=
   @stream_members_sorted
 
 /-- **C08 (conservation)**: the streams' sizes add up to the number of matching records -/
 theorem C08_total_entries :
-    ∀ (es : List Entry), (List.map (fun s => s.entries.length) (group es)).sum = es.length :=
+    ∀ (es : List Entry), (List.map (fun (s : LogQL.Stream) => s.entries.length) (group es)).sum = es.length :=
   @total_entries
 
 /-- **C08 (order)**: entries within a stream are in timestamp order -/
@@ -71,7 +77,7 @@ theorem C08_limit_prefix :
     ∀ (env : Env) (pre : List StrMatcher) (stages : List Stage) (L : Int),
       0 < L →
         ∀ (recs : List Rec) (seens : List Seen) (count : Nat),
-          ↑count ≤ L →
+          (↑count : Int) ≤ L →
             iterate env pre stages L recs seens count =
               List.take (L.toNat - count) (iterate env pre stages 0 recs seens count) :=
   @limit_prefix
@@ -89,8 +95,8 @@ theorem C08_limit_earliest :
     ∀ (env : Env) (pre : List StrMatcher) (stages : List Stage) (L : Int),
       0 < L →
         ∀ (recs : List Rec),
-          List.Pairwise (fun a b => a.ts ≤ b.ts) recs →
-            List.Pairwise (fun a b => a.ts ≤ b.ts) (iterate env pre stages L recs [] 0) ∧
+          List.Pairwise (fun (a b : Rec) => a.ts ≤ b.ts) recs →
+            List.Pairwise (fun (a b : Entry) => a.ts ≤ b.ts) (iterate env pre stages L recs [] 0) ∧
               ∀ (e : Entry),
                 e ∈ iterate env pre stages L recs [] 0 →
                   ∀ (d : Entry), d ∈ List.drop L.toNat (iterate env pre stages 0 recs [] 0) → e.ts ≤ d.ts :=
